@@ -321,6 +321,19 @@ class Woven:
             done += 1
         return done
 
+    def static_str_consts(self):
+        """T8 (function-local): `const NAME: &str = ..` is spelled `const NAME: &'static str = ..` (Verus wants the
+        elided lifetime of a constant written out)."""
+        done = 0
+        for i in range(self.item.lo, self.hi - 4):
+            t = self.ct
+            if t[i][1] == 'const' and t[i + 2][1] == ':' and t[i + 3][1] == '&' and t[i + 4][1] == 'str':
+                if any(r.start <= t[i + 3][2] < r.end for r in self.repls):
+                    continue
+                self._ins(t[i + 3][3], "'static ")
+                done += 1
+        return done
+
     def replace_if_present(self, pattern, text, rule):
         if self._find(pattern, count=True):
             self.replace(pattern, text, rule)
